@@ -4,7 +4,10 @@ impl -> spec: `vh-ops relational inplace` drives every catalogue operator that d
 in_place_inputs() or is_commutative() (operator objects decoded by the real ONNX loader):
 Operator::run, then Operator::run_in_place with the executor's calling convention on owned copies
 (exact / spare-capacity / permuted / gapped / capacity-reserved buffers), then run with swapped
-operands for commutative operators.  TLC validates the trace with Trace_Relational.tla
+operands for commutative operators.  Every second case of a bit-exact float operator draws elements from an
+extreme-value pool (+-inf, NaN, +-0, f32::MAX/MIN, smallest normal, subnormals, +-1; NaNs compare as
+"both NaN" in OpContracts.SameElements), and every case is crossed with each pattern of omitted optional
+inputs the operator accepts (subsets of the connected non-in-place inputs on which Operator::run succeeds).  TLC validates the trace with Trace_Relational.tla
 (OpContracts.InPlaceEqualsNormal / CommutedEqualsNormal on shape, dtype and bits) and checks that
 every in-place call is one the executor transcription (OpContracts.Taken, model-checked against its
 closed form in MC_OpContracts) can make."""
@@ -29,7 +32,9 @@ def scan(trace):
             r = json.loads(line)
             if r["ev"] == "case":
                 cur = r
-                o = ops.setdefault(r["key"], {"op": r["op"], "cases": 0, "dtypes": {}, "classes": {}, "runs": {}, "normal_ok": 0})
+                o = ops.setdefault(r["key"], {"op": r["op"], "cases": 0, "dtypes": {}, "classes": {}, "runs": {}, "normal_ok": 0, "present": {}, "values": {}})
+                o["present"][r["present"]] = o["present"].get(r["present"], 0) + 1
+                o["values"][r["vals"]] = o["values"].get(r["vals"], 0) + 1
                 o["cases"] += 1
                 o["dtypes"][r["dt"]] = o["dtypes"].get(r["dt"], 0) + 1
                 o["classes"][r["cls"]] = o["classes"].get(r["cls"], 0) + 1
@@ -58,10 +63,10 @@ def scan(trace):
 
 def merge(dst, src):
     for k, o in src.items():
-        d = dst.setdefault(k, {"op": o["op"], "cases": 0, "dtypes": {}, "classes": {}, "runs": {}, "normal_ok": 0})
+        d = dst.setdefault(k, {"op": o["op"], "cases": 0, "dtypes": {}, "classes": {}, "runs": {}, "normal_ok": 0, "present": {}, "values": {}})
         d["cases"] += o["cases"]
         d["normal_ok"] += o["normal_ok"]
-        for f in ("dtypes", "classes", "runs"):
+        for f in ("dtypes", "classes", "runs", "present", "values"):
             for a, b in o[f].items():
                 d[f][a] = d[f].get(a, 0) + b
 
@@ -102,6 +107,8 @@ def run(ctx):
     ctx.cov["comparisons_against_successful_normal_run"] = st.get("compared", 0)
     ctx.cov["normal_run_failed_nothing_required"] = st.get("ref_failed", 0)
     ctx.cov["bits_differ_within_rounding_bound"] = st.get("rounding_only", 0)
+    ctx.cov["cases_with_nonfinite_float_inputs"] = sum(o["values"].get("nonfinite", 0) for o in ops.values())
+    ctx.cov["input_presence_patterns"] = sum(len(o["present"]) for o in ops.values())
     ctx.cov["operators_exercised"] = len(ops)
     ctx.cov["operators"] = ops
     ctx.add_samples(samples)
@@ -111,7 +118,9 @@ def run(ctx):
              "run_in_place for each executor calling convention x owned-buffer class, then swapped operands if commutative; "
              "distinct by (operator variant, inputs); non-trivial = normal run succeeded with a non-empty output",
         assumptions=["the catalogue generators produce inputs on which Operator::run succeeds (measured: normal_ok per operator)",
-                     "float data avoids NaN inputs (NaN payload propagation is not part of the property)",
+                     "two NaN elements are treated as equal whatever their payload/sign (payload propagation is not part of the property); "
+                     "rten-gemm based operators (num >= 1) keep finite inputs",
+                     "an omission pattern is 'accepted' when Operator::run succeeds on it",
                      "operators whose result is a rten-gemm sum of products are compared bit-exactly on integer-valued data and "
                      "within the rounding bound of OpContracts.tla otherwise (DESIGN 6.2)",
                      "thread pool: 4 threads for both sides of every comparison"],
